@@ -183,6 +183,28 @@ func withoutFlag(f *gen.Func, it reflect.Value) string {
 	return refmodel.ItemJSON(c)
 }
 
+// namesSubElement: the delete elements name a sub element of a structured element ("value":{"scale":{}}).
+// Whether that clears the sub element or the whole element is not fixed by the statement, so P4 does not
+// compare the element's new content then; everything else (P1-P3, P5, P7) is independent of that meaning.
+func namesSubElement(u refmodel.Update) bool {
+	if !u.DeleteElements.IsValid() {
+		return false
+	}
+	e := u.DeleteElements.Elem()
+	for i := 0; i < e.NumField(); i++ {
+		ef := e.Field(i)
+		if ef.Kind() != reflect.Ptr || ef.IsNil() || ef.Elem().Kind() != reflect.Struct {
+			continue
+		}
+		for j := 0; j < ef.Elem().NumField(); j++ {
+			if sf := ef.Elem().Field(j); (sf.Kind() == reflect.Ptr || sf.Kind() == reflect.Slice) && !sf.IsNil() {
+				return true
+			}
+		}
+	}
+	return false
+}
+
 // judge evaluates P1..P5 and P7 on one outcome.
 func judge(t world.TB, f *gen.Func, u refmodel.Update, o outcome) {
 	shape := sigShape(u)
@@ -240,7 +262,7 @@ func judge(t world.TB, f *gen.Func, u refmodel.Update, o outcome) {
 			if wantPresent != present {
 				world.Fail(t, "C04/success-not-applied/"+shape, "P4: success result, but element %s present=%v, expected present=%v%s", k, present, wantPresent, desc())
 			}
-			if present && withoutFlag(f, a) != withoutFlag(f, w) {
+			if present && withoutFlag(f, a) != withoutFlag(f, w) && !namesSubElement(u) {
 				world.Fail(t, "C04/success-not-applied/"+shape, "P4: success result, but element %s is %s, expected %s%s", k, withoutFlag(f, a), withoutFlag(f, w), desc())
 			}
 		}
@@ -308,7 +330,9 @@ func addrPattern(a []bool) string {
 // genCase draws the existing list and a write of the given shape.
 func genCase(t *rapid.T, f *gen.Func, shape string) ([]reflect.Value, refmodel.Update) {
 	// (the elements of a full write come in any order, and so does the list the application stored)
-	o := gen.Opt{Dense: true, MixedIDs: true, UnsortedFull: true}
+	// (delete selectors may name something else than the identifier, or nothing at all, and so select several
+	// elements; delete elements may name a sub element such as value.scale)
+	o := gen.Opt{Dense: true, MixedIDs: true, UnsortedFull: true, LooseSelectors: true, NestedElements: true}
 	var init []reflect.Value
 	n := rapid.IntRange(1, 4).Draw(t, "n")
 	seen := map[uint64]bool{}
